@@ -344,6 +344,7 @@ fn main() {
     let per_type_random: usize = a[5].parse().unwrap();
     let mutation_bases: usize = a[6].parse().unwrap();
     install_panic_hook();
+    install_log_sink();
     let schema = Schema::parse(include_str!("layout.txt"));
     let keys: Vec<String> = schema.order.clone();
     let mut report = Report::new("C12", &tier, seed, "exploration");
